@@ -1,3 +1,3 @@
 #!/bin/sh
 # replays this counterexample against the real build
-cd /repo && VERIF_SCRIPT=/verif/replays/C14/VHarnessDecodeAny_9865b56b_0/script.json GOFLAGS=-mod=mod GOPROXY=off go test -vet=off -count=1 -overlay /verif/replays/C14/VHarnessDecodeAny_9865b56b_0/overlay.json -run ^TestVerifReplay_VHarnessDecodeAny$ -v ./cashu
+cd /tmp/seedrepo_C14 && VERIF_SCRIPT=/verif/replays/C14/VHarnessDecodeAny_9865b56b_0/script.json VERIF_RAW_SALT=0 GOFLAGS=-mod=mod GOPROXY=off go test -vet=off -count=1 -overlay /verif/replays/C14/VHarnessDecodeAny_9865b56b_0/overlay.json -run ^TestVerifReplay_VHarnessDecodeAny$ -v ./cashu
